@@ -51,7 +51,11 @@ print(json.dumps({k: meta[k] for k in ('property', 'mutation', 'valid', 'baselin
 for c, r in meta['checks'].items():
     print('  ', c, 'exit', r['exit'], r['first'][:160])
 if valid:
-    d = os.path.join(HERE, 'seeded', '%s-%s' % (prop, m))
+    name = '%s-%s' % (prop, m)
+    for a in sys.argv:
+        if a.startswith('--name='):
+            name = a.split('=', 1)[1]
+    d = os.path.join(HERE, 'seeded', name)
     os.makedirs(d, exist_ok=True)
     shutil.copy(os.path.join(wt, 'out', m + '.diff'), os.path.join(d, 'patch.diff'))
     shutil.copy(os.path.join(wt, 'out', m + '_demo.py'), os.path.join(d, 'demo.py'))
